@@ -274,6 +274,17 @@ PREDICATE_BINDINGS = {
 LIFETIME = {'is_expired', 'is_stale', 'is_recent'}
 
 
+def purge_report_obligations(ctx: Any, R: str) -> List[Ob]:
+    """Every listener is told about every purged (and every received) record: the notification routine hands one
+    collection to each listener in turn, so what its callers pass must survive more than one walk."""
+    from .common import shared_argument_obligations
+
+    out = shared_argument_obligations(ctx, R, ctx.prog.func('zeroconf._handlers.record_manager.RecordManager.async_updates'), 'handed to every listener in turn')
+    if not out:
+        raise AnalysisError('anchor vanished: RecordManager.async_updates does not hand its records to each listener in a loop')
+    return out
+
+
 @rule('C05.PURGE', 'D', expect_min=12)
 def purge(ctx: Any) -> List[Ob]:
     """The purge selects by is_expired(now), removes exactly that selection and
@@ -366,6 +377,8 @@ def purge(ctx: Any) -> List[Ob]:
     comp = next((c for c in walk_local_ordered(g.node) if isinstance(c, (ast.ListComp, ast.GeneratorExp)) and ru and c.elt is ru[0]), None)
     src_ok = comp is not None and isinstance(comp.generators[0].iter, ast.Call) and call_name(comp.generators[0].iter) == 'async_expire' and not comp.generators[0].ifs and len(comp.generators) == 1
     obs.append(ob(R, g, ru[0] if ru else 'RecordUpdate', 'each purged record is reported exactly once, as (record, record)', okru and src_ok))
+
+    obs.extend(purge_report_obligations(ctx, R))
 
     def effc(node: Any, evl: Any) -> List[Any]:
         return [call_name(c) for c in node.calls() if call_name(c) in ('async_expire', 'async_updates', 'async_updates_complete', '_async_schedule_next_cache_cleanup')]
